@@ -19,7 +19,8 @@ from typing import cast
 
 import elementpath.aliases as ta
 
-from elementpath.datatypes import AbstractDateTime, ArithmeticProxy, Duration, NumericProxy
+from elementpath.datatypes import AbstractDateTime, ArithmeticProxy, Duration, \
+    Float, NumericProxy
 from elementpath.xpath_nodes import XPathNode, ElementNode, DocumentNode
 
 from elementpath.exceptions import ElementPathTypeError
@@ -100,6 +101,14 @@ def evaluate__comparison_operators(self: XPathToken, context: ta.ContextType = N
             raise self.error('XPTY0004', err) from None
         else:
             raise self.error('FORG0001', err) from None
+
+
+def _float_result(value: float, *operands: object) -> float:
+    """Returns an xs:float if there are xs:float operands and no xs:double operand."""
+    if any(isinstance(x, Float) for x in operands) and \
+            not any(isinstance(x, float) and not isinstance(x, Float) for x in operands):
+        return Float(value)
+    return value
 
 
 ###
@@ -215,17 +224,23 @@ def evaluate__mod_operator(self: XPathToken, context: ta.ContextType = None) \
         return []
     elif op2 is None:
         raise self.error('XPTY0004', '2nd operand is an empty sequence')
-    elif op2 == 0 and isinstance(op2, float):
-        return math.nan
-    elif math.isinf(op2) and not math.isinf(op1) and op1 != 0:
-        return op1 if self.parser.version != '1.0' else math.nan
 
     try:
-        if isinstance(op1, int) and isinstance(op2, int):
-            return op1 % op2 if op1 * op2 >= 0 else -(abs(op1) % op2)
+        if isinstance(op1, float) or isinstance(op2, float):
+            # xs:float/xs:double: IEEE 754 remainder of a truncating division
+            if math.isnan(op1) or math.isnan(op2) or math.isinf(op1) or op2 == 0:
+                return _float_result(math.nan, op1, op2)
+            elif math.isinf(op2):
+                return _float_result(float(op1), op1, op2)
+            return _float_result(math.fmod(op1, op2), op1, op2)
+        elif isinstance(op1, int) and isinstance(op2, int):
+            result = abs(op1) % abs(op2)
+            return -result if op1 < 0 else result  # takes the sign of the dividend
         return op1 % op2  # type: ignore[operator]
     except TypeError as err:
         raise self.error('FORG0006', err) from None
+    except OverflowError as err:
+        raise self.error('FOAR0002', err) from None
     except (ZeroDivisionError, decimal.InvalidOperation):
         raise self.error('FOAR0001') from None
 
